@@ -203,8 +203,11 @@ CHECKS = {
        "parameter value and every byte the chip answers to the reads, the SPI transactions along the success path of set_modulation_params (command, then the TX-modulation workaround "
        "read/write of 0x0889), set_packet_params (command, IQ-polarity workaround on 0x0736), set_channel, set_tx_power_and_ramp_time (TX-clamp workaround on 0x08D8 for the high-power PA, "
        "SetPaConfig, SetTxParams), do_rx (StopTimerOnPreamble, SetLoRaSymbNumTimeout [+ 0x0706], RX gain register, SetRx / SetRxDutyCycle), do_cad, the cold-start sequence up to the retention "
-       "list, tx / write_buffer / irq / standby / sleep equal the sequence of datasheet commands the reference driver issues. Not stated for the SX127x, whose reference driver legitimately "
-       "accesses registers in another pattern (compared by register outcome). Tied to the code THREE ways on the same emulated bus: the Coq models against the lora-phy "
+       "list, tx / write_buffer / irq / standby / sleep equal the sequence of datasheet commands the reference driver issues. For the SX127x, whose reference driver legitimately "
+       "accesses registers in another pattern (compared by register outcome), the order is stated where it is not a matter of pattern: the FIFO discipline of the datasheet "
+       "(C13_sx127x_seq_set_payload / _set_buffer_base / _get_rx_payload: FifoAddrPtr is programmed BEFORE the FIFO burst, to the TX base for a write and to FifoRxCurrentAddr for a read of "
+       "exactly RxNbBytes bytes; C13_sx127x_fifo_registers: the regenerated register addresses are the datasheet's), tied to the code at pin level and by an oracle on the emulated FIFO "
+       "(from any prior pointer the payload lands at the TX base). Tied to the code THREE ways on the same emulated bus: the Coq models against the lora-phy "
        "drivers (pin-level traces, exact), and the drivers against Semtech's reference drivers (SWL2001 C sources through smtc-modem-cores): SX1261/SX1262 transaction by transaction in wire-canonical "
        "form, SX1276 by register outcome on randomised prior register contents, over every LoRaWAN channel frequency + a stride over 137-1020 MHz, every SF x BW x CR, packet parameter grids, sync "
        "words, symbol timeouts, IRQ masks, RX/TX/CAD start, PA/TX parameters, image calibration, status decoding.",
